@@ -34,6 +34,7 @@ vars == <<l, src, m, skip, bad, malformed, ok>>
 V == INSTANCE Versions WITH Modes <- {}, Patterns <- {}, IAs <- {}, Containers <- {}, MaxEntries <- 0, MaxAux <- 0,
                             SmallEntries <- 0, SmallAux <- 0, BigCombos <- {}, NeedMode <- "rev", VsLens <- {},
                             Disciplines <- {}, SessPatterns <- {}, MaxCalls <- 0, FreeCombos <- {}, FreeIAs <- {},
+                            FileDisciplines <- {}, FileIAs <- {}, MaxFileCalls <- 0,
                             phase <- l, ch <- l, obj <- l, img <- l, exp <- l, sec <- l, wk <- l, sess <- l
 
 Log == ndJsonDeserialize(IOEnv.TRACE)
